@@ -63,12 +63,12 @@ CONFIGS = ["mc1", "mc3", "seq_dict", "rev_yaml", "asc_json", "res_rot"]
 RES_ROT = ["Resource.main_thread", "Resource.async_thread", "Resource.thread"]
 
 
-def build(prog: dict, config: str, is_async: bool):
+def build(prog: dict, config: str, is_async: bool, local_subs: bool = False):
     mc = {"mc1": 1, "mc3": 3, "seq_dict": 1, "rev_yaml": 1, "asc_json": 1, "res_rot": 2}[config]
     per_site = None
     if config == "res_rot":
         per_site = {si: {"resource": RES_ROT[si % 3], "priority": si % 2} for si, st in enumerate(prog["body"]) if st["k"] == "call"}
-    src = ir.source(prog, mc=mc, is_async=is_async, per_site=per_site)
+    src = ir.source(prog, mc=mc, is_async=is_async, per_site=per_site, local_subs=local_subs)
     ns = exec_source(src)
     d = ns[prog["name"]]
     if config in ("seq_dict", "rev_yaml", "asc_json"):
@@ -107,13 +107,13 @@ def compare(acc, case, prog, args, res, refres, src, prefix=(), check_calls=True
 
 def run_program(acc, case: dict, prog: dict, inputs: List[tuple], configs: List[str], flavours=(False, True),
                 explore_all: bool = False, tie_budget: Optional[int] = 1, check_calls: bool = True, max_execs: int = 400,
-                stateful_setup: bool = False) -> None:
+                stateful_setup: bool = False, local_subs: bool = False) -> None:
     """Evaluate `prog` on every input under every config / flavour. explore_all: every schedule (mc3 config), else default."""
     acc.cases += 1
     for config in configs:
         for is_async in flavours:
             try:
-                d, ns, src = build(prog, config, is_async)
+                d, ns, src = build(prog, config, is_async, local_subs)
             except Exception as e:  # noqa: BLE001
                 acc.violation(V("build_failed", f"building the DAG raised {e!r} (config {config}, is_async={is_async})", exc=type(e).__name__),
                               case, (), None, ir.source(prog))
